@@ -367,4 +367,234 @@ theorem Dead.foldl {k : Nat} (l : List Item) : ∀ (j : Mon), Dead k j → (l.fo
     · exact hne seq t url body e.symm
     · exact ih (j.step it) hd' hok seq t url body hm
 
+/-! ### a property of the monitor's entry for SID k that survives everything except what is meant to change it -/
+
+/-- the entry of SID k exists and satisfies P -/
+def Ent (P : SubMon → Prop) (k : Nat) (subs : List SubMon) : Prop := ∃ s, subs[k]? = some s ∧ P s
+
+/-- P does not depend on the credit, the expiry or the alive flag of an entry -/
+structure Stable (P : SubMon → Prop) : Prop where
+  credit : ∀ (s : SubMon) (c : Nat), P s → P { s with credit := c }
+  expires : ∀ (s : SubMon) (e : Int), P s → P { s with expires := e }
+  dead : ∀ (s : SubMon), P s → P { s with alive := false }
+
+theorem Ent.map {P : SubMon → Prop} {k : Nat} {subs : List SubMon} (h : Ent P k subs) (f : SubMon → SubMon)
+    (hf : ∀ s, P s → P (f s)) : Ent P k (subs.map f) := by
+  obtain ⟨s, hs, hp⟩ := h
+  exact ⟨f s, by rw [List.getElem?_map, hs]; rfl, hf s hp⟩
+
+theorem Ent.modify {P : SubMon → Prop} {k : Nat} {subs : List SubMon} (h : Ent P k subs) (k' : Nat) (f : SubMon → SubMon)
+    (hf : ∀ s, P s → P (f s)) : Ent P k (subs.modify k' f) := by
+  obtain ⟨s, hs, hp⟩ := h
+  unfold Ent
+  rw [List.getElem?_modify, hs]
+  by_cases e : k' = k
+  · exact ⟨f s, by simp [e], hf s hp⟩
+  · exact ⟨s, by simp [e], hp⟩
+
+theorem Ent.modify_ne {P : SubMon → Prop} {k : Nat} {subs : List SubMon} (h : Ent P k subs) (k' : Nat) (f : SubMon → SubMon)
+    (hne : k' ≠ k) : Ent P k (subs.modify k' f) := by
+  obtain ⟨s, hs, hp⟩ := h
+  exact ⟨s, by rw [List.getElem?_modify_ne _ _ hne]; exact hs, hp⟩
+
+theorem Ent.append {P : SubMon → Prop} {k : Nat} {subs : List SubMon} (h : Ent P k subs) (x : SubMon) :
+    Ent P k (subs ++ [x]) := by
+  obtain ⟨s, hs, hp⟩ := h
+  exact ⟨s, by rw [List.getElem?_append_left (List.getElem?_eq_some_iff.mp hs).1]; exact hs, hp⟩
+
+theorem Ent.onResp {P : SubMon → Prop} (hs : Stable P) {k : Nat} {j : Mon} (h : Ent P k j.subs)
+    (o : Op) (st : Nat) (sid : Option Nat) (g : Option Int) : Ent P k (j.onResp o st sid g).subs := by
+  unfold Mon.onResp
+  repeat' split
+  all_goals (first
+    | exact h
+    | exact h.append _
+    | exact h.modify _ _ (fun s hp => hs.expires s _ hp)
+    | exact h.modify _ _ (fun s hp => hs.dead s hp))
+
+theorem Ent.assign {P : SubMon → Prop} {k : Nat} {j : Mon} (h : Ent P k j.subs) (x : Nat) (v : Val) :
+    Ent P k (j.assign x v).subs := by
+  unfold Mon.assign
+  repeat' split
+  all_goals exact h
+
+theorem Ent.assignMany {P : SubMon → Prop} {k : Nat} (l : List (Nat × Val)) : ∀ {j : Mon}, Ent P k j.subs →
+    Ent P k (l.foldl (fun j p => j.assign p.1 p.2) j).subs := by
+  induction l with
+  | nil => intro j h; exact h
+  | cons p l ih => intro j h; exact ih (h.assign p.1 p.2)
+
+theorem Ent.lapse {P : SubMon → Prop} (hs : Stable P) {k : Nat} {j : Mon} (h : Ent P k j.subs) (t : Int) :
+    Ent P k (j.lapse t).subs := by
+  unfold Mon.lapse
+  split
+  · exact h.map _ (fun s hp => hs.credit s 0 hp)
+  · exact h
+
+/-- every step that is neither a NOTIFY to k nor a key preset of k keeps the entry's property -/
+theorem Ent.step {P : SubMon → Prop} (hs : Stable P) {k : Nat} {j : Mon} (h : Ent P k j.subs) (it : Item)
+    (hn : ∀ seq t url body, it ≠ .obs (.notify k seq t url body)) (hk : ∀ n, it ≠ .op (.setKey k n)) :
+    Ent P k (j.step it).subs := by
+  cases it with
+  | op o =>
+    have hc : Ent P k j.close.subs := h.map _ (fun s hp => hs.credit s 0 hp)
+    cases o with
+    | adv dt => exact hc
+    | set x v => exact hc.assign x v
+    | setMany l => exact Ent.assignMany l hc
+    | subscribe sid cb to => exact hc
+    | unsubscribe sid => exact hc
+    | done n => exact hc
+    | fail n => exact hc
+    | setKey sid n =>
+      have hne : sid ≠ k := fun e => hk n (by rw [e])
+      exact hc.modify_ne sid _ hne
+  | obs o =>
+    cases o with
+    | resp st sid g =>
+      show Ent P k (j.onObs (.resp st sid g)).subs
+      simp only [Mon.onObs]
+      cases ha : j.awaiting with
+      | none => exact h
+      | some o => exact h.onResp hs o st sid g
+    | notify sid seq t url body =>
+      have hne : sid ≠ k := fun e => hn seq t url body (by rw [e])
+      show Ent P k ((j.lapse t).notifyAt sid seq t url body).subs
+      have h0 := h.lapse hs t
+      generalize j.lapse t = j0 at h0 ⊢
+      simp only [Mon.notifyAt]
+      cases hsd : j0.subs[sid]? with
+      | none => exact h0
+      | some s =>
+        obtain ⟨s0, hs0, hp⟩ := h0
+        exact ⟨s0, by show (j0.subs.set sid _)[k]? = _; rw [List.getElem?_set_ne hne]; exact hs0, hp⟩
+    | trig x t =>
+      show Ent P k ((j.lapse t).trigAt x t).subs
+      exact (h.lapse hs t).map _ (fun s hp => hs.credit s _ hp)
+    | ret sid => exact h
+    | exc sid => exact h
+
+theorem Ent.foldl {P : SubMon → Prop} (hs : Stable P) {k : Nat} (l : List Item) : ∀ (j : Mon), Ent P k j.subs →
+    (∀ it ∈ l, (∀ seq t url body, it ≠ .obs (.notify k seq t url body)) ∧ (∀ n, it ≠ .op (.setKey k n))) →
+    Ent P k (l.foldl Mon.step j).subs := by
+  induction l with
+  | nil => intro j h _; exact h
+  | cons it l ih =>
+    intro j h hl
+    obtain ⟨h1, h2⟩ := hl it List.mem_cons_self
+    exact ih (j.step it) (h.step hs it h1 h2) (fun it' hm => hl it' (List.mem_cons_of_mem _ hm))
+
+/-- an accepted NOTIFY to k carries the key the monitor expects, and moves it on by the property's law -/
+theorem notify_key {j : Mon} {k seq : Nat} {t : Int} {url : Str} {body : List (Nat × Str)}
+    (h : (j.step (.obs (.notify k seq t url body))).ok = true) :
+    (∀ s, Ent (fun sm => sm.nextSeq = s) k j.subs → seq = s)
+    ∧ Ent (fun sm => sm.nextSeq = specNextKey seq) k (j.step (.obs (.notify k seq t url body))).subs := by
+  have h' : ((j.lapse t).notifyAt k seq t url body).ok = true := h
+  have hl : ∀ s, Ent (fun sm => sm.nextSeq = s) k j.subs → Ent (fun sm => sm.nextSeq = s) k (j.lapse t).subs :=
+    fun s he => he.lapse ⟨fun _ _ hp => hp, fun _ _ hp => hp, fun _ hp => hp⟩ t
+  show _ ∧ Ent _ k ((j.lapse t).notifyAt k seq t url body).subs
+  generalize j.lapse t = j0 at h' hl ⊢
+  simp only [Mon.notifyAt] at h' ⊢
+  cases hs : j0.subs[k]? with
+  | none => rw [hs] at h'; simp [fail] at h'
+  | some sm =>
+    rw [hs] at h'
+    simp only [Bool.and_eq_true, beq_iff_eq] at h'
+    have hseq : seq = sm.nextSeq := h'.2.1.1.1.2
+    refine ⟨fun s he => ?_, ?_⟩
+    · obtain ⟨sm', hsm', hp⟩ := hl s he
+      rw [hs] at hsm'; cases hsm'
+      rw [hseq]; exact hp
+    · have hlt : k < j0.subs.length := (List.getElem?_eq_some_iff.mp hs).1
+      exact ⟨_, by show (j0.subs.set k _)[k]? = _; rw [List.getElem?_set_self hlt], rfl⟩
+
+/-! ### the monitor's table of SIDs only grows -/
+
+theorem len_onResp (j : Mon) (o : Op) (st : Nat) (sid : Option Nat) (g : Option Int) :
+    j.subs.length ≤ (j.onResp o st sid g).subs.length := by
+  unfold Mon.onResp
+  repeat' split
+  all_goals simp [check, fail, markDead]
+
+theorem len_step (j : Mon) (it : Item) : j.subs.length ≤ (j.step it).subs.length := by
+  cases it with
+  | op o =>
+    have hc : j.close.subs.length = j.subs.length := by simp [Mon.close]
+    cases o with
+    | adv dt => exact Nat.le_of_eq hc.symm
+    | set x v =>
+      show _ ≤ (j.close.assign x v).subs.length
+      unfold Mon.assign; repeat' split
+      all_goals exact Nat.le_of_eq hc.symm
+    | setMany l =>
+      have : ∀ (l : List (Nat × Val)) (j : Mon), (l.foldl (fun j p => j.assign p.1 p.2) j).subs = j.subs := by
+        intro l
+        induction l with
+        | nil => intro j; rfl
+        | cons p l ih =>
+          intro j
+          show (l.foldl _ (j.assign p.1 p.2)).subs = _
+          rw [ih]; unfold Mon.assign; repeat' split
+          all_goals rfl
+      show _ ≤ (l.foldl _ j.close).subs.length
+      rw [this]; exact Nat.le_of_eq hc.symm
+    | subscribe sid cb to => exact Nat.le_of_eq hc.symm
+    | unsubscribe sid => exact Nat.le_of_eq hc.symm
+    | done n => exact Nat.le_of_eq hc.symm
+    | fail n => exact Nat.le_of_eq hc.symm
+    | setKey sid n => show _ ≤ (j.close.subs.modify sid _).length; rw [List.length_modify]; exact Nat.le_of_eq hc.symm
+  | obs o =>
+    cases o with
+    | resp st sid g =>
+      show _ ≤ (j.onObs (.resp st sid g)).subs.length
+      simp only [Mon.onObs]
+      cases ha : j.awaiting with
+      | none => exact Nat.le_refl _
+      | some o => exact len_onResp j o st sid g
+    | notify sid seq t url body =>
+      show _ ≤ ((j.lapse t).notifyAt sid seq t url body).subs.length
+      have hl : (j.lapse t).subs.length = j.subs.length := by unfold Mon.lapse; split <;> simp
+      rw [← hl]
+      generalize j.lapse t = j0
+      simp only [Mon.notifyAt]
+      cases j0.subs[sid]? with
+      | none => exact Nat.le_refl _
+      | some s => simp
+    | trig x t =>
+      show _ ≤ ((j.lapse t).trigAt x t).subs.length
+      have hl : (j.lapse t).subs.length = j.subs.length := by unfold Mon.lapse; split <;> simp
+      simp [Mon.trigAt, hl]
+    | ret sid => exact Nat.le_refl _
+    | exc sid => exact Nat.le_refl _
+
+theorem len_foldl (l : List Item) : ∀ (j : Mon), j.subs.length ≤ (l.foldl Mon.step j).subs.length := by
+  induction l with
+  | nil => intro j; exact Nat.le_refl _
+  | cons it l ih => intro j; exact Nat.le_trans (len_step j it) (ih _)
+
+/-- an accepted 200 to a new SUBSCRIBE: the SID is the next index of the table and the entry starts at key 0 -/
+theorem new_sub_accepted {j : Mon} {cb to : Option Str} {k : Nat} {g : Option Int}
+    (h : ((j.step (.op (.subscribe .absent cb to))).step (.obs (.resp 200 (some k) g))).ok = true) :
+    k = j.subs.length
+    ∧ ((j.step (.op (.subscribe .absent cb to))).step (.obs (.resp 200 (some k) g))).subs.length = k + 1
+    ∧ Ent (fun sm => sm.nextSeq = 0) k ((j.step (.op (.subscribe .absent cb to))).step (.obs (.resp 200 (some k) g))).subs := by
+  obtain ⟨ja, hja⟩ : ∃ ja : Mon, ja = { j.close with awaiting := some (.subscribe .absent cb to) } := ⟨_, rfl⟩
+  have hsubs : ja.subs = j.close.subs := by rw [hja]
+  have hlen : ja.subs.length = j.subs.length := by rw [hsubs]; simp [Mon.close]
+  have hstep : ((j.step (.op (.subscribe .absent cb to))).step (.obs (.resp 200 (some k) g))).subs
+      = (ja.onResp (.subscribe .absent cb to) 200 (some k) g).subs := by rw [hja]; rfl
+  have hok : (ja.onResp (.subscribe .absent cb to) 200 (some k) g).ok = true := by rw [hja]; exact h
+  rw [hstep]
+  cases g with
+  | none => simp [Mon.onResp, fail] at hok
+  | some gr =>
+    by_cases hk : k = ja.subs.length
+    · have hr : (ja.onResp (.subscribe .absent cb to) 200 (some k) (some gr)).subs
+          = ja.subs ++ [SubMon.mk true (callbackUrl cb) 0 (ja.now + gr * usPerS) false 0 []] := by
+        simp [Mon.onResp, hk]
+      rw [hr]
+      refine ⟨hk.trans hlen, by simp [hk], ⟨SubMon.mk true (callbackUrl cb) 0 (ja.now + gr * usPerS) false 0 [], ?_, rfl⟩⟩
+      rw [hk, List.getElem?_append_right (Nat.le_refl _)]; simp
+    · simp [Mon.onResp, hk, fail] at hok
+
 end Upnp.C15
